@@ -35,6 +35,9 @@ Definition handler_logs_ok : bool := forallb entry_safe gen.T07.HANDLER_LOGS.
 
 Definition tables_ok : bool :=
   handler_logs_ok &&
+  (* Irc.isChannel hands an ISUPPORT entry to ircutils.isChannel only when it is not None (repair of C07.F45): a 005
+     token without value cannot make _tagMsg / takeMsg raise for every later message *)
+  gen.T07.ISCHANNEL_NONE_SAFE &&
   parse_catches_ok && parse_guard_ok &&
   (* Irc.takeMsg is firewalled and its _truncateMsg encodes the message: an unencodable one is logged and dropped
      there, so that data.encode() in _sendIfMsgs (outside every try) only ever sees encodable text *)
@@ -55,6 +58,12 @@ Lemma T_catches : parse_catches_ok = true.
 Proof. vm_compute. reflexivity. Qed.
 Lemma T_guard : parse_guard_ok = true.
 Proof. vm_compute. reflexivity. Qed.
+Lemma T_safe : gen.T07.ISCHANNEL_NONE_SAFE = true.
+Proof. vm_compute. reflexivity. Qed.
+Lemma chan_safe i s : is_channel_raises i s = false.
+Proof. unfold is_channel_raises. rewrite T_safe. reflexivity. Qed.
+Lemma tag_safe i c args : tag_raises i c args = false.
+Proof. unfold tag_raises. destruct args; [reflexivity|apply chan_safe]. Qed.
 Lemma T_logs : handler_logs_ok = true.
 Proof. vm_compute. reflexivity. Qed.
 Lemma T_take : fw_irc s_takeMsg = true.
@@ -188,6 +197,7 @@ Notation pstate := (pstate St).
 Notation run_infilters := (run_infilters St).
 Notation run_calls := (run_calls St).
 Notation feed_body := (feed_body St dispatch addmsg cbs).
+Notation feed_rest := (feed_rest St addmsg cbs).
 Notation feed_msg := (feed_msg St dispatch addmsg cbs).
 Notation feed_lines := (feed_lines St vt decode dispatch addmsg cbs).
 Notation run_outfilters := (run_outfilters St).
@@ -221,24 +231,24 @@ Proof.
   rewrite through_try_all by exact T_call. apply IH.
 Qed.
 
+Lemma feed_rest_none n m d s : snd (feed_rest n m d s) = None.
+Proof.
+  unfold Model.feed_rest. cbn zeta. rewrite through_try_all by exact T_add.
+  destruct (run_infilters n m cbs _) as [[p3 x] go] eqn:E.
+  match type of E with run_infilters _ _ _ ?P = _ => pose proof (run_infilters_none n m cbs P) as Hn end.
+  rewrite E in Hn. cbn in Hn. subst x. destruct go; [|reflexivity]. apply run_calls_none.
+Qed.
+
 Lemma feed_body_exc n m p : dispatch_ok -> exc_ok (snd (feed_body n m p)).
 Proof.
-  intro Hd. unfold Model.feed_body. destruct p as [d s].
+  intro Hd. unfold Model.feed_body. destruct p as [d s]. rewrite tag_safe.
   destruct (existsb (seq_eqb (m_command m)) gen.T07.NICK_SETTERS && is_nil (m_args m)); [cbn; discriminate|].
   destruct (is_ping (m_command m)).
   - destruct (m_args m) as [|a rest]; [cbn; discriminate|].
     destruct (valid_arg a); [|cbn; discriminate].
-    cbn [snd fst]. rewrite through_try_all by exact T_add.
-    destruct (run_infilters n m cbs _) as [[p3 x] go] eqn:E.
-    pose proof (run_infilters_none n m cbs (apply_reconn (h_reconn (addmsg n m s)) (set_outq (outq d ++ [a]) d), h_st (addmsg n m s))) as Hn.
-    rewrite E in Hn. cbn in Hn. subst x. destruct go; [|cbn; discriminate].
-    rewrite run_calls_none. discriminate.
+    cbn [snd fst]. rewrite feed_rest_none. discriminate.
   - specialize (Hd n m s). destruct (h_exc (dispatch n m s)) as [e|] eqn:Ex; [cbn; exact Hd|].
-    cbn [snd fst]. rewrite through_try_all by exact T_add.
-    destruct (run_infilters n m cbs _) as [[p3 x] go] eqn:E.
-    match type of E with run_infilters _ _ _ ?P = _ => pose proof (run_infilters_none n m cbs P) as Hn end.
-    rewrite E in Hn. cbn in Hn. subst x. destruct go; [|cbn; discriminate].
-    rewrite run_calls_none. discriminate.
+    cbn [snd fst]. rewrite feed_rest_none. discriminate.
 Qed.
 
 (* C07_firewall_total: whatever the handlers and callbacks do, feedMsg returns normally *)
@@ -272,7 +282,7 @@ Proof. intro H. apply Forall_rev. exact H. Qed.
 Lemma take_all_none fuel : out_ok -> forall acc p, snd (take_all fuel acc p) = None.
 Proof.
   intro Ho. induction fuel as [|f IH]; intros acc p; cbn [Model.take_all]; [reflexivity|].
-  destruct (outq (fst p)) as [|a q]; [reflexivity|].
+  destruct (outq (fst p)) as [|a q]; [reflexivity|]. rewrite tag_safe, andb_false_r.
   pose proof (run_outfilters_none a (rev cbs) (out_ok_rev Ho) (set_outq q (fst p), snd p)) as Hr.
   destruct (run_outfilters a (rev cbs) _) as [p1 x]. cbn [snd] in Hr. subst x.
   destruct (negb gen.T07.TRUNCATE_ENCODES || encodable a); [apply IH|].
@@ -284,7 +294,7 @@ Lemma take_all_acc fuel : forall acc p, forallb encodable acc = true ->
   forallb encodable (snd (fst (take_all fuel acc p))) = true.
 Proof.
   induction fuel as [|f IH]; intros acc p Ha; cbn [Model.take_all]; [exact Ha|].
-  destruct (outq (fst p)) as [|a q]; [exact Ha|].
+  destruct (outq (fst p)) as [|a q]; [exact Ha|]. rewrite tag_safe, andb_false_r.
   destruct (run_outfilters a (rev cbs) _) as [p1 x].
   destruct x as [e|]; [destruct (through_fw _ _); exact Ha|].
   rewrite T_trunc. cbn [negb orb]. destruct (encodable a) eqn:Ea.
@@ -396,41 +406,33 @@ Proof.
   destruct (through_fw _ _); [cbn [fst]; apply qb_reconn|]. rewrite IH. cbn [fst]. apply qb_reconn.
 Qed.
 
-(* after the handler stage, the rest of feedMsg leaves queue and outbuffer alone *)
-Lemma feed_rest_qb n m d s :
-  qb (fst (fst (let r := addmsg n m s in
-            let p2 := (apply_reconn (h_reconn r) d, h_st r) in
-            match through_try_at 3 gen.T07.FEED_ADDMSG_CATCHES (through_fw (fw_state s_addMsg) (h_exc r)) with
-            | Some e => (p2, Some e)
-            | None =>
-                match run_infilters n m cbs p2 with
-                | (p3, Some e, _) => (p3, Some e)
-                | (p3, None, false) => (p3, None)
-                | (p3, None, true) => run_calls n m cbs p3
-                end
-            end))) = qb d.
+(* after the handler stage, the rest of feedMsg leaves queue and outbuffer alone (do005 only touches state.supported) *)
+Lemma feed_rest_qb n m d s : qb (fst (fst (feed_rest n m d s))) = qb d.
 Proof.
-  cbn zeta. destruct (through_try_at _ _ _); [cbn [fst]; apply qb_reconn|].
-  pose proof (run_infilters_qb n m cbs (apply_reconn (h_reconn (addmsg n m s)) d, h_st (addmsg n m s))) as H1.
-  destruct (run_infilters n m cbs _) as [[p3 x] go]. cbn [fst] in H1. rewrite qb_reconn in H1.
+  unfold Model.feed_rest. cbn zeta.
+  set (d2 := match h_exc (addmsg n m s) with None => _ | Some _ => _ end).
+  assert (H2 : qb d2 = qb d).
+  { unfold d2. destruct (h_exc (addmsg n m s)); [apply qb_reconn|].
+    destruct (seq_eqb (m_command m) s_005); [|apply qb_reconn].
+    transitivity (qb (apply_reconn (h_reconn (addmsg n m s)) d)); [reflexivity|apply qb_reconn]. }
+  destruct (through_try_at _ _ _); [exact H2|].
+  pose proof (run_infilters_qb n m cbs (d2, h_st (addmsg n m s))) as H1.
+  destruct (run_infilters n m cbs _) as [[p3 x] go]. cbn [fst] in H1. rewrite H2 in H1.
   destruct x; [exact H1|]. destruct go; [|exact H1]. rewrite run_calls_qb. exact H1.
 Qed.
 
 Lemma feed_body_enc n m p : echo_ok m = true -> enc_ok (fst p) = true -> enc_ok (fst (fst (feed_body n m p))) = true.
 Proof.
-  intros He Hp. unfold Model.feed_body. destruct p as [d s]. cbn [fst] in Hp.
+  intros He Hp. unfold Model.feed_body. destruct p as [d s]. cbn [fst] in Hp. rewrite tag_safe.
   destruct (existsb _ _ && _); [exact Hp|].
   unfold echo_ok in He. destruct (is_ping (m_command m)).
   - destruct (m_args m) as [|a rest]; [exact Hp|].
     destruct (valid_arg a); [|exact Hp]. cbn [negb orb] in He.
-    cbn [snd fst]. unfold enc_ok.
-    etransitivity; [exact (f_equal enc_qb (feed_rest_qb n m (set_outq (outq d ++ [a]) d) s))|].
+    cbn [snd fst]. unfold enc_ok. rewrite feed_rest_qb.
     unfold enc_ok, enc_qb, qb in *. cbn [fst snd set_outq outq outbuf] in *.
     apply andb_true_iff in Hp as [H1 H2]. rewrite forallb_app, H1, H2. cbn. rewrite He. reflexivity.
   - destruct (h_exc (dispatch n m s)); [cbn [fst]; unfold enc_ok; rewrite qb_reconn; exact Hp|].
-    cbn [snd fst]. unfold enc_ok.
-    etransitivity; [exact (f_equal enc_qb (feed_rest_qb n m (apply_reconn (h_reconn (dispatch n m s)) d) (h_st (dispatch n m s))))|].
-    rewrite qb_reconn. exact Hp.
+    cbn [snd fst]. unfold enc_ok. rewrite feed_rest_qb, qb_reconn. exact Hp.
 Qed.
 
 Lemma feed_msg_enc line m p : echo_ok m = true -> enc_ok (fst p) = true -> enc_ok (fst (fst (feed_msg line m p))) = true.
